@@ -31,6 +31,7 @@
 #include <fstream>
 #include <map>
 #include <set>
+#include <netinet/in.h>
 #include <sstream>
 #include <type_traits>
 #include <unistd.h>
@@ -820,8 +821,35 @@ static void on_alarm(int) {
   _exit(5);
 }
 
-int main() {
+// Behavioural probe (--probe): after a hash-failed round with the finished transfer of a peer left in Block::m_transfers,
+// does Block::insert accept the same peer again? (1 = the tree has the stale-transfer repair)
+static int probe_repaired() {
+  sockaddr_in sa{};
+  sa.sin_family = AF_INET;
+  sa.sin_port = htons(6881);
+  sa.sin_addr.s_addr = htonl(0x7f000002);
+  auto* pi = new torrent::PeerInfo(reinterpret_cast<const sockaddr*>(&sa));
+  auto* bl = new torrent::BlockList(torrent::Piece(0, 0, torrent::Delegator::block_size), torrent::Delegator::block_size);
+  torrent::Block& b = (*bl)[0];
+  torrent::BlockTransfer* t = b.insert(pi);
+  if (t == nullptr) return -1;
+  b.transfering(t);
+  t->set_position(t->piece().length());
+  b.completed(t);
+  bl->do_all_failed();
+  torrent::BlockTransfer* again = b.insert(pi);
+  return again != nullptr ? 1 : 0;   // the objects are leaked on purpose (their destructors assert on this artificial state)
+}
+
+int main(int argc, char** argv) {
   std_setup();
+  if (argc > 1 && std::string(argv[1]) == "--probe") {
+    int r = -1;
+    try { Session S; r = probe_repaired(); std::cout << "repaired=" << r << "\n"; std::cout.flush(); _exit(0); } catch (std::exception& e) { r = -1; }
+    std::cout << "repaired=" << r << "\n";
+    std::cout.flush();
+    _exit(0);
+  }
   signal(SIGALRM, on_alarm);
   int case_limit = getenv("LTV_CASE_TIMEOUT") ? atoi(getenv("LTV_CASE_TIMEOUT")) : 30;
   std::unique_ptr<Session> S;
